@@ -73,6 +73,8 @@ class InterpBase:
             a.update(node_ordinals(fnode, (ast.For, ast.While, ast.ListComp, ast.DictComp, ast.GeneratorExp), "loop"))
             a.update(node_ordinals(fnode, (ast.BinOp, ast.Compare, ast.UnaryOp, ast.AugAssign), "op"))
             a.update(node_ordinals(fnode, (ast.Assign, ast.Delete, ast.With, ast.JoinedStr), "stmt"))
+            a.update(node_ordinals(fnode, (ast.Name,), "name"))
+            a.update(node_ordinals(fnode, (ast.If, ast.IfExp, ast.BoolOp, ast.While), "test"))
             self._anchor_cache[id(fnode)] = a
         return a
 
@@ -356,6 +358,8 @@ class InterpBase:
                  "typing.Sequence": "Sequence", "types.FrameType": "frame"}
         if dotted in alias:
             return self.class_term(self.table.id(alias[dotted]))
+        if dotted in ("sys.exec_prefix", "sys.prefix", "os.sep"):
+            return Val.VStr(z3.String(dotted.replace(".", "_")))      # text constants of the interpreter
         return self.st_register_cached(("extern", dotted), lambda: ExternObj(dotted))
 
     # ------------------------------------------------------------------ lists / dicts primitives
